@@ -18,6 +18,7 @@ import (
 	"sort"
 	"strconv"
 	"strings"
+	"time"
 
 	"github.com/antonmedv/expr"
 	"github.com/antonmedv/expr/ast"
@@ -856,6 +857,60 @@ func c10RunSrc(src string, ops ...expr.Option) (out interface{}, err error) {
 	return expr.Run(p, env)
 }
 
+// the constant-node campaign: literal -> (constant value, name of the environment constant of the baseline)
+var c10ConstTable = []struct {
+	lit  string
+	val  interface{}
+	name string
+}{
+	{"5m", 5 * time.Minute, "D5m"}, {"300s", 300 * time.Second, "D300s"}, {"1h", time.Hour, "D1h"}, {"60m", 60 * time.Minute, "D60m"},
+	{"[1 2]", []int{1, 2}, "L12"}, {"nil!", nil, "NilC"},
+}
+
+type c10ConstPatcher struct{}
+
+func (c10ConstPatcher) Enter(*ast.Node) {}
+func (c10ConstPatcher) Exit(node *ast.Node) {
+	if s, ok := (*node).(*ast.StringNode); ok {
+		for _, e := range c10ConstTable {
+			if e.lit == s.Value {
+				ast.Patch(node, &ast.ConstantNode{Value: e.val})
+			}
+		}
+	}
+}
+
+func c10ConstSubstitute(src string) string {
+	for _, e := range c10ConstTable {
+		src = strings.ReplaceAll(src, "\""+e.lit+"\"", e.name)
+	}
+	return src
+}
+
+func c10RunConst(src string, patch, optimize bool) (out interface{}, err error) {
+	defer func() {
+		if r := recover(); r != nil {
+			err = fmt.Errorf("panic: %v", r)
+		}
+	}()
+	env := map[string]interface{}{
+		"Elapsed": 10 * time.Minute,
+		"Longer":  func(a, b time.Duration) bool { return a > b },
+	}
+	for _, e := range c10ConstTable {
+		env[e.name] = e.val
+	}
+	ops := []expr.Option{expr.Env(env), expr.Optimize(optimize)}
+	if patch {
+		ops = append(ops, expr.Patch(c10ConstPatcher{}))
+	}
+	p, err := expr.Compile(src, ops...)
+	if err != nil {
+		return nil, err
+	}
+	return expr.Run(p, env)
+}
+
 func c10Substitute(src string) string {
 	// identifiers M / MS as whole words -> the literals the patcher inserts
 	var b strings.Builder
@@ -955,6 +1010,44 @@ func c10EndToEnd(rep *Report) {
 		if gerr != nil || !reflect.DeepEqual(got, want) {
 			rep.fail(Failure{Key: "C10-e2e-operator", What: "operator overloading does not apply when a user visitor repairs the expression: " + c.position, Input: input,
 				Want: fmt.Sprintf("%v (= explicit call)", want), Got: fmt.Sprintf("%v (error %v)", got, gerr), Replay: string(rp)})
+		}
+	}
+	// a user visitor that replaces a literal by a CONSTANT NODE of another type (the documented ast.Patch idiom: the string
+	// literals "5m", "300s", "1h", "60m" become time.Duration constants, "[1 2]" an []int constant, "nil!" a nil constant):
+	// the tree that is checked and compiled is the tree after the patch, so the result is the one of the same
+	// expression over environment constants of those types
+	for _, c := range []c10E2E{
+		{"constant as function argument", "Longer(Elapsed, \"5m\")"},
+		{"constant as function argument", "Longer(Elapsed, \"1h\")"},
+		{"constants compared", "\"5m\" == \"300s\""},
+		{"constants compared in a condition", "\"1h\" != \"60m\" ? \"differ\" : \"same\""},
+		{"constant compared with a variable", "Elapsed == \"5m\""},
+		{"constant in an array", "[\"5m\", Elapsed][0] == \"300s\""},
+		{"constant as method receiver", "(\"5m\").Minutes()"},
+		{"constant in closure body", "map([Elapsed], {Longer(#, \"5m\")})"},
+		{"slice constant indexed", "(\"[1 2]\")[1]"},
+		{"slice constant under len", "len(\"[1 2]\") + 1"},
+		{"slice constant in closure", "map(\"[1 2]\", {# * 2})"},
+		{"nil constant compared", "\"nil!\" == nil"},
+		{"nil constant in a branch", "(\"nil!\" == nil ? \"5m\" : \"1h\") == \"300s\""},
+		{"whole expression (root)", "\"5m\""},
+	} {
+		for _, opt := range []bool{true, false} {
+			rep.Evaluations++
+			rep.hist("e2e constant node: " + c.position)
+			got, gerr := c10RunConst(c.src, true, opt)
+			want, werr := c10RunConst(c10ConstSubstitute(c.src), false, opt)
+			input := map[string]interface{}{"e2e": c.src, "constants": true, "optimize": opt, "position": c.position}
+			rp, _ := json.Marshal(input)
+			if werr != nil {
+				rep.fail(Failure{Key: "C10-e2e-baseline", What: "the source over environment constants does not compile and run", Input: input,
+					Want: "a result", Got: werr.Error(), Replay: string(rp)})
+				continue
+			}
+			if gerr != nil || !reflect.DeepEqual(got, want) {
+				rep.fail(Failure{Key: "C10-e2e-patch", What: "a user patch replacing string literals by constant nodes of another type (ast.Patch + ast.ConstantNode) does not take effect at position: " + c.position,
+					Input: input, Want: fmt.Sprintf("%v (= result of %s over constants)", want, c10ConstSubstitute(c.src)), Got: fmt.Sprintf("%v (error %v)", got, gerr), Replay: string(rp)})
+			}
 		}
 	}
 	// optimizations wherever the sub-expression occurs: after optimizer.Optimize no foldable node is left
